@@ -22,6 +22,9 @@ if fam in ("noah", "all"): cases += T.noahs_ark_family(tier)
 if fam in ("foster", "all"): cases += T.foster_family(tier, rng)
 if fam in ("random", "all"): cases += T.random_docs(rng, 3000 if tier == "quick" else 100000)
 if fam in ("randtok", "all"): cases += T.random_token_runs(rng, 3000 if tier == "quick" else 100000)
+if fam == "c06":
+    from props import C06
+    cases = C06.gen_cases(tier, rng)
 if fam.startswith("file:"):
     cases = [(l.rstrip("\n"), "file") for l in open(fam[5:]) if l.strip()]
 seen = set(); u = []
@@ -43,6 +46,14 @@ def firstdiff(a, b):
     k = 0
     while k < min(len(a), len(b)) and a[k] == b[k]: k += 1
     return k
+if fam == "c06":
+    ov = [(c, i, C06.oracle(c[0], i)) for c, i in zip(cases, impl)]
+    ov = [x for x in ov if x[2]]
+    print("ORACLE failures:", len(ov), "nontrivial:", sum(1 for c, i in zip(cases, impl) if C06.nontrivial(c[0], i)))
+    ov.sort(key=lambda x: len(x[0][0]))
+    for (line, tag), i, why in ov[:show]:
+        print("---", tag, why); print(line); print("".join(T.txt_chunks(line)) if line.split("\t")[1] == "txt" else ""); print((i or "")[-600:])
+    print(Counter(w[:60] for _, _, w in ov).most_common(10))
 bad.sort(key=lambda x: len(x[0][0]))
 for (line, tag), i, m in bad[:show]:
     k = firstdiff(i, m)
